@@ -547,6 +547,39 @@ class Gen:
             out[v['name']] = refs
         return out
 
+    # ---------- G4: crates/macro hook shapes
+    def hook_shapes(self):
+        path = os.path.join(self.repo, 'crates/macro/src/lib.rs')
+        src = open(path).read()
+        t = tree(tokenize(src)); body = find_fn(t, 'create_visit')
+        if body is None: raise Refuse('%s: fn create_visit not found' % path)
+        pushes = {}
+        def walk(its):
+            for i, x in enumerate(its):
+                if is_id(x) and i + 3 < len(its) and is_p(its[i + 1], '.') and is_id(its[i + 2], 'push') and is_g(its[i + 3], '()'):
+                    q = [g for g in its[i + 3].items if is_g(g, '{}')]
+                    if q: pushes.setdefault(x.s, []).append(text(q[0].items).replace(' ', ''))
+                if isinstance(x, Group): walk(x.items)
+        walk(body.items)
+        def fn_body(txt):
+            m = re.search(r'fn#\w+\(&mutself,instr:&(?:mut)?#name\)\{(.*)\}$', txt)
+            if not m: raise Refuse('%s: default hook quote not understood: %s' % (path, txt[:200]))
+            return m.group(1)
+        try:
+            vis = fn_body(pushes['visitor_trait_methods'][0]); vism = fn_body(pushes['visitor_mut_trait_methods'][0])
+            vi = pushes['visit_impl'][0]; vim = pushes['visit_mut_impl'][0]
+        except KeyError as e:
+            raise Refuse('%s: create_visit no longer pushes %s' % (path, e))
+        if vi != 'Instr::#name(e)=>{visitor.#method_name(e);e.visit(visitor);}': raise Refuse('%s: Instr::visit arm shape changed: %s' % (path, vi))
+        if vim != 'Instr::#name(e)=>{visitor.#method_name_mut(e);e.visit_mut(visitor);}': raise Refuse('%s: Instr::visit_mut arm shape changed: %s' % (path, vim))
+        def rec(b, call):
+            if b == '': return False
+            if b == call: return True
+            raise Refuse('%s: default hook body not understood: %s' % (path, b))
+        r = {'visitor_default_recurses': rec(vis, 'instr.visit(self);'), 'visitor_mut_default_recurses': rec(vism, 'instr.visit_mut(self);')}
+        self.report['hooks'] = r
+        return r
+
     # ---------- emit Coq
     @staticmethod
     def wop_argty(t):
@@ -644,6 +677,22 @@ class Gen:
             refs = vr[n]
             w('  | P_%s %s => [%s]' % (n, ' '.join(f if any(f == r[1] for r in refs) else '_' for f, _, _ in v['fields']), '; '.join('(%s, %s)' % r for r in refs)))
         w('  end.')
+        w('(* control variants of ir::Instr: the InstrSeqId fields the derived visit reports (not skip_visit), in declaration order *)')
+        for v in self.ENUMS['Instr']:
+            if v['name'] not in CONTROL_IR: continue
+            params, parts = [], []
+            for f, t, attrs in v['fields']:
+                tt = t.replace(' ', '')
+                if tt == 'InstrSeqId': params.append('(%s : N)' % f)
+                elif tt == 'Box<[InstrSeqId]>': params.append('(%s : list N)' % f)
+                else: raise Refuse('control Instr::%s has a field of unexpected type %s' % (v['name'], tt))
+                if any('skip_visit' in a for a in attrs): continue
+                parts.append('[%s]' % f if tt == 'InstrSeqId' else f)
+            w('Definition visited_seqs_%s %s : list N := %s.' % (v['name'], ' '.join(params), ' ++ '.join(parts) if parts else '[]'))
+        hs = self.hook_shapes()
+        w('(* crates/macro: shape of the generated Instr::visit / visit_mut and of the default hook bodies *)')
+        w('Definition default_hook_recurses : bool := %s.' % ('true' if hs['visitor_default_recurses'] else 'false'))
+        w('Definition default_hook_mut_recurses : bool := %s.' % ('true' if hs['visitor_mut_default_recurses'] else 'false'))
         w('(* an injective serialisation (constructor index, then every immediate), used only to compare operators by computation *)')
         w('Definition z_code (z : Z) : N := match z with Z0 => 0 | Zpos p => 2 * Npos p | Zneg p => 2 * Npos p + 1 end.')
         w('Definition valty_code (v : valty) : N := match v with VT_I32 => 0 | VT_I64 => 1 | VT_F32 => 2 | VT_F64 => 3 | VT_V128 => 4 | VT_Funcref => 5 | VT_Externref => 6 end.')
